@@ -126,7 +126,7 @@ def run(chk):
         for t in rc.CORPUS:
             case(t, "corpus")
         n_soup = 120000 if thorough else 6000
-        n_prog = 60000 if thorough else 3500
+        n_prog = 60000 if thorough else 2800
         for _ in range(n_soup):
             case(rc.soup(rng), "soup")
         for _ in range(n_prog):
